@@ -124,7 +124,7 @@ def run_core(tier, prop):
     # REPLAY: serde
     vlib.build_harness("rt", extra_env={"CARGO_TARGET_DIR": os.path.join(vlib.BUILD, "target-rt")})
     rt = os.path.join(vlib.BUILD, "target-rt", "release", "rt")
-    cin, cout = os.path.join(vlib.BUILD, "case.in"), os.path.join(vlib.BUILD, "case.out")
+    cin, cout = os.path.join(vlib.TMP, "case.in"), os.path.join(vlib.TMP, "case.out")
     reqs = [(pos, rule, i) for pos in ("field", "variant") for rule in RULES for i in ids]
     with open(cin, "w", encoding="utf-8") as f:
         for pos, rule, i in reqs:
@@ -165,7 +165,7 @@ def run_core(tier, prop):
     for (shape, rule, i), n in extra.items():
         recs.append({"id": by_id[i]["id"], "pos": "field", "rule": rule, "ts": n, "serde": serde[("field", rule, i)]})
         meta.append(("field", rule, i, shape))
-    tpath = os.path.join(vlib.BUILD, "infl-trace.ndjson")
+    tpath = os.path.join(vlib.TMP, "infl-trace.ndjson")
     vlib.write_ndjson(tpath, recs)
     a = vlib.run_tlc("Trace_Inflection", "Trace_Inflection.cfg", workers=12, env={"VERIF_TRACE": tpath}, timeout=1800,
                      tags=("BAD09", "BAD16", "DRIFT"), metatag="c09a")
